@@ -43,10 +43,8 @@ UNPROVED = [
     "GeometricFolded with epsilon/sensitivity below the extraction threshold: the law is not extracted (too many "
     "atoms); covered by output correspondence + geom_dp/dp_postprocess only",
     "PermuteAndFlip, degenerate branch (sensitivity = 0, log-probabilities 0 / -inf): the stream law of the model's "
-    "pafRun is not proved (Prop paf_stream_law_degenerate_full; the model's bernInf coin carries a fuel that is "
-    "exhausted with probability exp(-fuel), so the statement needs that slack); its law is only the "
-    "recursion-mirroring pafLaw there, compared with the law extracted from the running code; the DP claim of that "
-    "branch is trivial (paf_dp_degenerate: neighbours are equal)",
+    "pafRun is proved only up to the MODEL's coin-fuel artefact (paf_stream_law_degenerate: run <= pafPmf <= run + "
+    "n*exp(-coinFuel); the Python coin bernoulli_neg_exp(+inf) is unbounded and returns 0 almost surely)",
     "ExponentialCategorical.randomise and the geometric redraw on u = 1/2 (geomDraw) are not restated as push-forward "
     "laws (single uniform; catPmf / the measure-zero redraw are compared with the running code)",
 ]
